@@ -92,6 +92,10 @@ class SyncSystem:
             raise fakes.FakeRpcError('service unavailable')
         if k == 'malformed':
             return object()
+        if k == 'unknown_type':
+            # a response type of a newer service: it carries the service's current hash and nothing this agent can use
+            return PollResponse(ts_nanos=self.svc + 1, current_hash=str(self.svc) if self.svc else '77',
+                                response_type=7)
         if k == 'no_change':
             return PollResponse(ts_nanos=1, current_hash=str(self.svc) if self.svc else '',
                                 response_type=ResponseType.NO_CHANGE)
@@ -111,7 +115,7 @@ class SyncSystem:
             try:
                 self.deep.poll.poll()
             except BaseException as ex:
-                if args[0] not in ('error', 'malformed'):
+                if args[0] not in ('error', 'malformed', 'unknown_type'):
                     raise
         elif action == 'Register':
             self.nreg += 1
